@@ -39,6 +39,18 @@ def run_check(prop: str, tier: str, repo: Repo = None, write: bool = True, quiet
             ck.errors.append(f"selftest: {e}")
         except Exception as e:
             ck.errors.append(f"selftest: internal error {type(e).__name__}: {e}\n{traceback.format_exc(limit=8)}")
+        try:
+            from .anchors import ANCHORS
+            from .sweep import sweep
+
+            r = sweep(prop, ANCHORS.get(prop, []), root=repo.root)
+            ck.sweep = {k: v for k, v in r.items() if k != "survivors"}
+            ck.sweep["survivors_sample"] = r["survivors"][:40]
+            ck.evaluations += r["mutants"]
+            ck.counts["sweep_mutants"] = r["mutants"]
+            ck.counts["sweep_flagged"] = r["killed"] + r["analysis_error"]
+        except Exception as e:  # exploration only: never decides the check
+            ck.sweep = {"error": f"{type(e).__name__}: {e}"}
     ck.finish(write=write)
     return ck
 
